@@ -96,14 +96,14 @@ def build_config(sc, **over):
         cfg["samplers"] = cfg["samplers"] * 2
         cfg["gradient"]["samplers"] = [0, 1, 0][: sc["V"]]
     # plug-in methods may be given as "method" or as "plugin/method": every second scenario uses the qualified spelling
-    if (sum(sc["rw"]) + sc["P"]) % 2:
+    if _coin(sc, "qualified names"):
         for section in ("function_estimators", "realization_filters"):
             for entry in cfg[section]:
                 entry["method"] = "default/" + entry["method"]
     # an estimator map that is all zeros may be left out - here for the constraints only, while the objectives keep theirs
-    if EST[sc["est"][2]] == 0 and sc["P"] % 2 == 0:
+    if EST[sc["est"][2]] == 0 and _coin(sc, "omit estimator map"):
         del cfg["nonlinear_constraints"]["function_estimators"]
-    if list(sc["flt"][:2]) == [-1, -1] and sc["R"] % 2:
+    if list(sc["flt"][:2]) == [-1, -1] and _coin(sc, "omit filter map"):
         del cfg["objectives"]["realization_filters"]
     for k, v in over.items():
         cfg[k] = {**cfg.get(k, {}), **v}
